@@ -49,6 +49,7 @@ type injection struct {
 }
 
 var unparseableNumbers = []string{"abc", "1.5.2", "--"}
+var outOfRangeInt32 = []string{"2147483648", "4294967298", "-6442450344", "99999999999999999999", "-2147483649"}
 var unparseableTimes = []string{"abc", "12:xx:00", "1:2:3:4"}
 var unparseableDates = []string{"abcd", "2024-01-01", "20241301", "2024010"}
 
@@ -167,12 +168,14 @@ func c09Catalogue(t *sim.T, m *gen.StaticModel, tb *gen.Table, variant int) []in
 		for _, c := range []string{"shape_pt_lat", "shape_pt_lon", "shape_pt_sequence"} {
 			add("unparseable "+c, c, pickU(unparseableNumbers))
 		}
+		add("shape_pt_sequence outside the 32-bit range", "shape_pt_sequence", pickU(outOfRangeInt32))
 	case "frequencies.txt":
 		for _, c := range []string{"trip_id", "start_time", "end_time", "headway_secs"} {
 			add("blank "+c, c, "")
 		}
 		add("unknown trip_id", "trip_id", fresh("notrip"))
 		add("unparseable headway_secs", "headway_secs", pickU(unparseableNumbers))
+		add("headway_secs outside the 32-bit range", "headway_secs", pickU(outOfRangeInt32))
 		add("unparseable start_time", "start_time", pickU(unparseableTimes))
 		add("unparseable end_time", "end_time", pickU(unparseableTimes))
 	}
